@@ -447,3 +447,17 @@ CLAIMS["C42"] = (
     "6/C42", TRUSTED + "; an out-of-range vector index is answered by an error code in this (assertion) build, the "
     "unchecked access of a build without assertions is not observable here",
     "TLA+ abstract data types + state-machine histories + TLC trace validation")
+
+CLAIMS["C40"] = (
+    "model_checking",
+    "TLC model-checks the reference-counting design in module RC (counts equal the number of referrers, release "
+    "cascades to the children, a quiescent caller leaves no live object; the variant without cascading release is "
+    "refuted); the workload is a seeded sample of the cases of 15 generator models (construction, differentiation, "
+    "substitution, polynomials, matrices and matrix expressions, solving, series, parsing, printing, serialization, "
+    "structural queries, CSE, C API and containers), every case replayed twice in a row on one process; TLC validates "
+    "that the live-object count (hook H2, Basic::verif_live_basic) is unchanged across the repeated run of every case; "
+    "crashes, hangs and - in the thorough tier on an ASan+UBSan+LeakSanitizer build - out-of-bounds accesses, "
+    "use-after-free, undefined behaviour and leaked heap blocks end the harness and are attributed to the case",
+    "6/C40", TRUSTED + ", AddressSanitizer / UBSan / LeakSanitizer (thorough tier); uninitialised reads (MSan) are not "
+    "covered; 'any sequence of API calls' is approximated by the sampled cases of the other properties' generators",
+    "TLA+ reference-counting model checked by TLC + live-count trace validation (+ sanitizers)")
